@@ -44,6 +44,31 @@ posmap_cb(int dir, const int *pm, int n, int inlen, int outlen) {
 	for (k = 0; k < raw_n; k++) raw_pm[k] = pm[k];
 }
 
+static int opens_total = 0;
+static char opens_log[4096];
+static void
+open_cb(const char *path) {
+	const char *b = strrchr(path, '/');
+	size_t n = strlen(opens_log);
+	opens_total++;
+	if (n + strlen(b ? b + 1 : path) + 2 < sizeof opens_log) {
+		strcat(opens_log, n ? "," : "");
+		strcat(opens_log, b ? b + 1 : path);
+	}
+}
+
+static const void *seen_ptr[256];
+static int seen_n = 0;
+static int
+ptr_class(const void *p) {
+	int k;
+	if (!p) return 0;
+	for (k = 0; k < seen_n; k++)
+		if (seen_ptr[k] == p) return k + 1;
+	if (seen_n < 256) seen_ptr[seen_n++] = p;
+	return seen_n;
+}
+
 #define MAXW (1 << 16)
 static long v[MAXW];
 
@@ -62,9 +87,57 @@ main(void) {
 	lou_registerLogCallback(h_quietlog);
 	_lou_verif_tick_over = tick_over;
 	_lou_verif_posmap_cb = posmap_cb;
+	_lou_verif_open_cb = open_cb;
 	while (fgets(h_line, H_LINE, stdin)) {
 		size_t L = strlen(h_line);
 		while (L && (h_line[L - 1] == '\n' || h_line[L - 1] == '\r')) h_line[--L] = 0;
+		if (h_line[0] == 'Y') { /* Y <table list> ;; X ...  : select the list, then run the case */
+			char *sep = strstr(h_line, ";;");
+			if (!sep) continue;
+			*sep = 0;
+			{
+				char *a = h_line + 1, *e = sep;
+				while (*a == ' ') a++;
+				while (e > a && e[-1] == ' ') *--e = 0;
+				strncpy(tl, a, sizeof tl - 1);
+			}
+			memmove(h_line, sep + 2, strlen(sep + 2) + 1);
+			while (h_line[0] == ' ') memmove(h_line, h_line + 1, strlen(h_line));
+		}
+		if (h_line[0] == 'F') {
+			lou_free();
+			seen_n = 0;
+			printf("F\n");
+			fflush(stdout);
+			continue;
+		}
+		if (h_line[0] == 'K') { /* K <table list> | <rule> */
+			char *bar = strchr(h_line, '|');
+			int r = -1;
+			if (bar) {
+				char *a = h_line + 1, *e = bar;
+				*bar = 0;
+				while (*a == ' ') a++;
+				while (e > a && e[-1] == ' ') *--e = 0;
+				bar++;
+				while (*bar == ' ') bar++;
+				r = lou_compileString(a, bar);
+			}
+			printf("K %d\n", r);
+			fflush(stdout);
+			continue;
+		}
+		if (h_line[0] == 'G') { /* G <table list> : pointer identity class and files opened by this lookup */
+			char *a = h_line + 1;
+			int o0 = opens_total;
+			const void *p;
+			while (*a == ' ') a++;
+			opens_log[0] = 0;
+			p = lou_getTable(a);
+			printf("G %d opens=%d files=%s\n", ptr_class(p), opens_total - o0, opens_log);
+			fflush(stdout);
+			continue;
+		}
 		if (h_line[0] == 't') {
 			strncpy(tl, h_line + 2, sizeof tl - 1);
 			continue;
@@ -101,6 +174,7 @@ main(void) {
 			int rulesLen = 512;
 			memset(rules, 0, sizeof rules);
 			int hung = 0;
+			int o0 = opens_total;
 			sec_in = next_bar(p);
 			sec_tf = next_bar(sec_in);
 			sec_sp = next_bar(sec_tf);
@@ -180,6 +254,15 @@ main(void) {
 				case 'U':
 					ret = lou_backTranslateString(tl, in, &il, out, &ol, typeform, spacing, mode);
 					break;
+				case 'H': { /* lou_hyphenate: mode in `mode', hyphens (inlen + 1 bytes) reported as out[] */
+					char *hy = h_exact(inlen + 1);
+					memset(hy, 88, inlen + 1);
+					ret = lou_hyphenate(tl, in, inlen, hy, mode);
+					for (k = 0; k < outlen && k <= inlen; k++) out[k] = (unsigned char)hy[k];
+					ol = inlen + 1 < outlen ? inlen + 1 : outlen;
+					free(hy);
+					break;
+				}
 				case 'C':
 					ret = lou_charToDots(tl, in, out, inlen < outlen ? inlen : outlen, mode);
 					ol = inlen < outlen ? inlen : outlen;
@@ -223,7 +306,7 @@ main(void) {
 				printf(" %d %d %d :", raw_dir, raw_inlen, raw_outlen);
 				for (k = 0; k < raw_n; k++) printf(" %d", raw_pm[k]);
 			}
-			printf(" | errors=%d", h_logcount[4] + h_logcount[5] - e0);
+			printf(" | errors=%d opens=%d", h_logcount[4] + h_logcount[5] - e0, opens_total - o0);
 			if (hung) printf(" HANG %d", hang_site);
 			printf("\n");
 			fflush(stdout);
